@@ -141,6 +141,14 @@ class WithDictKwargs(Base):
         rec(self, a=a, **kwargs)
 
 
+class KwOnly(Base):
+    """accepts only **kwargs: a spec for it has dict_kwargs and no init_args"""
+
+    def __init__(self, **kwargs: Any):
+        self.kwargs = kwargs
+        rec(self, **kwargs)
+
+
 def make_base(a: int = 9) -> Base:
     return SubA(a=a, b="made")
 
@@ -149,4 +157,4 @@ def not_a_class():
     return 1
 
 
-BASE_FAMILY = [Base, SubA, SubB, SubReq, SubList, WithDictKwargs]
+BASE_FAMILY = [Base, SubA, SubB, SubReq, SubList, WithDictKwargs, KwOnly]
